@@ -20,7 +20,7 @@ CLAIMED = {
    technique='Coq proof (induction on fuel / size of the unified instance) + in-Coq differential correspondence'),
 }
 
-READY = ['C01', 'C02', 'C03', 'C04', 'C05', 'C06', 'C07', 'C08', 'C09', 'C10', 'C11', 'C12', 'C13', 'C14', 'C15', 'C16', 'C18', 'C19']   # properties whose check is registered
+READY = ['C01', 'C02', 'C03', 'C04', 'C05', 'C06', 'C07', 'C08', 'C09', 'C10', 'C11', 'C12', 'C13', 'C14', 'C15', 'C16', 'C17', 'C18', 'C19', 'C20']   # properties whose check is registered
 
 NOT_YET = {
  'C01': 'check exists (text/answer correspondence of compiled programs against the Coq model of the compiled code and the Coq SLD reference) but the program-level theorem is still being proved; not claimed until Properties/C01.v states it',
